@@ -502,6 +502,16 @@ fn close_signal_histories(ctx: &Ctx, rng: &mut Rng, out: &mut Out, reps: usize) 
             let res = run(&case);
             out.emit(&case, &res, &format!("first={path}"), true);
         }
+        // the same first requests with the probe pipelined behind them in ONE segment (the server has read it together with the
+        // first request): after a close signal it is not served, in any mode (round-6 seed C09-k: the epoll job went on with
+        // what it had carried over); without one it is
+        for (path, fields) in &firsts {
+            let r = Req { method: "GET", path: path.to_string(), fields: fields.clone(), body: vec![] };
+            let mut all = r.head(); all.extend(b"GET /none?behind HTTP/1.1\r\n\r\n");
+            let case = format!("P:D{};R;R", hex(&all));
+            let res = run(&case);
+            out.emit(&case, &res, &format!("pipelined-behind/first={path}"), true);
+        }
     }
 }
 
